@@ -777,7 +777,12 @@ class ModelTrainer:
         else:
             callbacks = []
 
-        if self.config.trainer_config.early_stopping.stop_training_on_plateau:
+        # `None` (schema default): no early stopping
+        early_stopping_cfg = self.config.trainer_config.early_stopping
+        if (
+            early_stopping_cfg is not None
+            and early_stopping_cfg.stop_training_on_plateau
+        ):
             callbacks.append(
                 EarlyStopping(
                     monitor="val_loss",
